@@ -3,7 +3,8 @@
  *
  * seqx enumeration of every sequence of alloc / set attribute / dup / attach / detach / free over
  * two real urefs (uref_std + udict_inline + ubuf_block_mem on a counting allocator), in which up to
- * --faults times "the k-th next memory request is refused" (k = 1..3) is armed. The refusal is an
+ * --faults times "the k-th next memory request is refused" (k = 1..4) is armed; a memory request is a request to the umem
+ * manager (buffer areas, dictionaries) or a libc malloc of a descriptor structure (uref, udict, ubuf, shared-area header). The refusal is an
  * environment answer: a deviation from the default; histories with 0 deviations are the plain API
  * sequences. Oracle after every step: no double / unknown free and no guard overrun at the
  * allocator, number of live areas = shared buffers + dictionaries the model says are alive, every
@@ -43,7 +44,21 @@ struct st {
 
 enum { K_ALLOC_BLK, K_ALLOC_CTL, K_SET_ID, K_SET_DEF, K_FREE, K_DETACH, K_DUP, K_ATTACH, K_PER_SLOT };
 #define OP_FAULT0 (K_PER_SLOT * NSLOT)
-#define NOPS (OP_FAULT0 + 3)
+#define NFAULTK 4
+#define NOPS (OP_FAULT0 + NFAULTK)
+
+/* libc-level requests of uref_std.c / udict_inline.c / ubuf_block_mem.c / ubuf_mem_common.c (the descriptor structures the
+ * pools recycle) are compiled as calls to this function and count as memory requests like those made to the umem manager */
+static struct cumem_mgr *vf_cumem;
+void *vf_malloc(size_t n);
+void *vf_malloc(size_t n)
+{
+    if (vf_cumem && vf_cumem->fail_in > 0 && --vf_cumem->fail_in == 0) {
+        vf_cumem->faults++;
+        return NULL;
+    }
+    return (malloc)(n);
+}
 
 static void opstr(int op, char *b, size_t n)
 {
@@ -59,10 +74,12 @@ static void *init(void)
     pxm_begin();
     struct st *s = calloc(1, sizeof(*s));
     cumem_mgr_init(&s->cumem);
+    vf_cumem = NULL; /* the managers themselves are not part of the fault space */
     s->udict_mgr = udict_inline_mgr_alloc(g_pool, &s->cumem.mgr, 8, 8);
     s->uref_mgr = uref_std_mgr_alloc(g_pool, s->udict_mgr, 0);
     s->ubuf_mgr = ubuf_block_mem_mgr_alloc(g_pool, g_pool, &s->cumem.mgr, 0, 0, 0, 0);
     assert(s->udict_mgr && s->uref_mgr && s->ubuf_mgr);
+    vf_cumem = &s->cumem;
     pxm_pause();
     return s;
 }
@@ -241,6 +258,7 @@ static int final_check(void *vst)
         r = SEQX_VIOL;
     }
     int faults = c->faults;
+    vf_cumem = NULL;
     free(st);
     char leak[200];
     int left = pxm_end(leak, sizeof(leak));
